@@ -329,6 +329,7 @@ func (c *Collection) onUpdate(ctx context.Context, config *ReadRequest) (<-chan 
 	if !config.UpdatesOnly {
 		c.mu.RLock()
 		defer c.mu.RUnlock()
+		verifhook.Yield("Collection.onUpdate:read-locked")
 		res = c.itemSlice(config)
 	}
 
